@@ -3,7 +3,7 @@ from . import robustgen as R
 
 ID = "C02"
 LEVEL = "proof"
-LEAN_MODULES = ["DracoProps.C02", "DracoProps.C02Eb"]
+LEAN_MODULES = ["DracoProps.C02", "DracoProps.C02Eb", "DracoProps.C02Kd"]
 RULE = ("valid streams of every method (sequential, kd-tree, Edgebreaker standard / valence; real encoder on small "
         "generated geometries, random option sets, metadata) and the small .drc files of testdata (bitstream 1.1 .. 2.3); "
         "corruptions: truncations, per-offset byte patterns {00, ff, ^01, ^80, +1, -1}, 32-bit patterns {0, 1, 2^31-1, "
